@@ -242,6 +242,15 @@ class Law:
     def holds(self, b: B):
         self.concl.append((b.spec, [b.flat]))
 
+    def render_assumed(self, home):
+        """statement only (external_body): the law is proved in unit `home`"""
+        pa = '#[verifier::external_body] // ASSUMED-CONTRACT (law proved in unit %s)\npub proof fn law_%s(%s)\n' % (
+            home, self.name, ', '.join('%s: %s' % (nm, type_text(cls)) for nm, cls in self.params))
+        if self.hyps:
+            pa += '    requires ' + ',\n        '.join(h[0] for h in self.hyps) + ',\n'
+        pa += '    ensures ' + ',\n        '.join(c[0] for c in self.concl) + ',\n{\n}\n'
+        return pa
+
     def render(self):
         atoms = self.atoms()
         pname = 'p_' + self.name
